@@ -69,7 +69,7 @@ def watchdog(seconds: float):
         signal.signal(signal.SIGALRM, old)
 
 
-def guarded(fn, timeout=5.0):
+def guarded(fn, timeout=30.0):
     """Run fn() with resets, watchdog and exit capture. Returns (status, value_or_message)."""
     reset_globals()
     out = io.StringIO()
@@ -138,7 +138,7 @@ def run_case(case: dict, keep_dir: str | None = None) -> dict:
             asm.assemble_bytecode()
             return None
 
-        status, msg, out = guarded(go, case.get('timeout', 5.0))
+        status, msg, out = guarded(go, case.get("timeout", 30.0))
         res = {'status': status, 'msg': msg if isinstance(msg, str) else None, 'stdout': out[-2000:]}
         if os.path.exists(p['out']):
             with open(p['out'], 'rb') as f:
@@ -192,7 +192,7 @@ def run_cli(case: dict, env_extra: dict | None = None, cwd: str | None = None, k
         if env_extra:
             env.update(env_extra)
         try:
-            cp = subprocess.run(args, env=env, cwd=cwd or d, capture_output=True, timeout=case.get('timeout', 15.0))
+            cp = subprocess.run(args, env=env, cwd=cwd or d, capture_output=True, timeout=case.get("timeout", 90.0))
             res = {'status': 'ok' if cp.returncode == 0 else 'err', 'rc': cp.returncode,
                    'stdout': cp.stdout.decode('utf-8', 'replace')[-2000:],
                    'msg': cp.stderr.decode('utf-8', 'replace')[-600:]}
